@@ -546,8 +546,8 @@ OTHER_COUNT = ["repeat", "append", "interpolate_n"]
 
 
 @st.composite
-def hist_selector(draw):
-    op = draw(st.sampled_from(SELECTORS))
+def hist_selector(draw, favourite=None):
+    op = favourite if favourite and draw(st.booleans()) else draw(st.sampled_from(SELECTORS))
     k = st.integers(0, 10 ** 4)
     d = dict(op=op)
     if op == "slice_value":
@@ -559,7 +559,8 @@ def hist_selector(draw):
                  stop=draw(k) if step != OMIT and step < 0 else draw(st.one_of(st.sampled_from([OMIT, None]), k, k)))
     elif op == "truncate_value":
         def bound():
-            kind = draw(st.sampled_from(["sample", "sample", "mid", "ulp+", "ulp-", "below", "above", "ratio", "ratio"]))
+            kind = draw(st.sampled_from(["sample", "sample", "mid", "ulp+", "ulp-", "below", "above", "ratio", "ratio",
+                                         "ratio", "ratio"]))
             if kind == "ratio":
                 return [kind, draw(st.one_of(st.sampled_from([0.0, 1.0, 0.5, 0.25, 0.75]), fl(-0.5, 1.5)))]
             if kind in ("below", "above"):
@@ -599,10 +600,12 @@ def hist_mutator(draw, kinds):
 def history_case(draw, ctx):
     s = draw(series(2, 24))
     prog = []
+    # state leaks show when the SAME selector is called again after the grid moved: one selector is favoured per history
+    fav = draw(st.sampled_from(SELECTORS + ["truncate_value", None]))
     for _ in range(draw(st.integers(1, ctx.pick(3, 5)))):
-        prog += draw(st.lists(hist_selector(), min_size=1, max_size=2))
+        prog += draw(st.lists(hist_selector(fav), min_size=1, max_size=2))
         prog += draw(st.lists(hist_mutator(SAME_COUNT + SAME_COUNT + OTHER_COUNT), min_size=1, max_size=2))
-    prog += draw(st.lists(hist_selector(), min_size=1, max_size=2))
+    prog += draw(st.lists(hist_selector(fav), min_size=1, max_size=2))
     return dict(s, prog=prog)
 
 
@@ -782,6 +785,8 @@ def history_body(ctx, case):
             judged_after_change += 1
             cls |= {"after:" + m for m in since}
             cls.add(f"{name}-after-grid-change")
+        if name in seen and since:
+            cls.add(f"{name}-again-after-grid-change")
         seen.add(name)
         since = [] if name.startswith("slice") else [name]
     cls.add("selectors-judged-after-a-change:" + str(min(judged_after_change, 3)))
@@ -789,18 +794,18 @@ def history_body(ctx, case):
 
 
 SUBCHECKS = [
-    Sub("truncate", "hyp", truncate_body, strategy=truncate_case, quick=600, thorough=15000,
+    Sub("truncate", "hyp", truncate_body, strategy=truncate_case, quick=600, thorough=10000,
         clause="process.truncate keeps the run from the last sample <= left to the first sample >= right, absolute "
                "and ratio bounds, x and y cut identically"),
-    Sub("weaver_truncate", "hyp", weaver_truncate_body, strategy=weaver_truncate_case, quick=600, thorough=15000,
+    Sub("weaver_truncate", "hyp", weaver_truncate_body, strategy=weaver_truncate_case, quick=600, thorough=10000,
         clause="Weaver.truncate_by_value: working series and reference both cut with the same bounds"),
-    Sub("slice_value", "hyp", slice_value_body, strategy=slice_value_case, quick=600, thorough=15000,
+    Sub("slice_value", "hyp", slice_value_body, strategy=slice_value_case, quick=600, thorough=10000,
         clause="slice_by_value returns precisely the samples with start <= x <= stop; omitted bound = end of series"),
-    Sub("slice_index", "hyp", slice_index_body, strategy=slice_index_case, quick=600, thorough=15000,
+    Sub("slice_index", "hyp", slice_index_body, strategy=slice_index_case, quick=600, thorough=10000,
         clause="slice_by_index agrees with Python slice semantics (signed steps)"),
-    Sub("truncate_index", "hyp", truncate_index_body, strategy=truncate_index_case, quick=600, thorough=15000,
+    Sub("truncate_index", "hyp", truncate_index_body, strategy=truncate_index_case, quick=600, thorough=10000,
         clause="truncate_by_index leaves x[start:stop], y[start:stop]"),
-    Sub("history", "hyp", history_body, strategy=history_case, quick=300, thorough=6000,
+    Sub("history", "hyp", history_body, strategy=history_case, quick=300, thorough=5000,
         clause="all four selectors on ONE Weaver, alternating with steps that move the grid (same or other sample "
                "count): every call selects from the series as it is at that moment"),
 ]
